@@ -155,8 +155,29 @@ def run_user_units(ctx, drv, cfg, sep):
     rng, res = ctx.rng, ctx.res
     combos = [(None, None, None), (4, None, None), (None, False, None), (None, None, False), (0, True, None), (3, False, True), (1, None, True), (5, True, False)]
     words = ['ua', 'ub', 'uc', 'ud', 'ue', 'uf', 'ug', 'uh']
-    ops = [{'op': 'new_calc', 'c': 9, 'seg': True}] + mon.gh.config_ops(cfg, 9, seg=False) + [{'op': 'add_type', 'c': 9, 'name': 'ufam'}]
+    via_json = rng.random() < 0.5
+    if via_json:
+        # the same family written into the configuration text (keys decimal_digits / use_fract_rounding / remove_fract_if_zero of an item)
+        import os
+        from . import core, lex
+        items_ = []
+        for i, (w, (dg, rm, rd)) in enumerate(zip(words, combos)):
+            it = {'index': i + 1, 'format': '{value} %s' % w, 'parse': ['{NUMBER:value} {TEXT:type:%s}' % w], 'names': [w], 'upgrade_code': '{value}', 'downgrade_code': '{value}'}
+            if dg is not None:
+                it['decimal_digits'] = dg
+            if rm is not None:
+                it['remove_fract_if_zero'] = rm
+            if rd is not None:
+                it['use_fract_rounding'] = rd
+            items_.append(it)
+        ops = [{'op': 'new_calc_json', 'c': 9, 'seg': True, 'path': os.path.join(core.REPO, 'src/json/config.json'),
+                'set': [['/types', lex.config()['types'] + [{'name': 'ufam', 'items': items_}]]]}] + mon.gh.config_ops(cfg, 9, seg=False)
+        res.count('user_unit_families_written_into_the_configuration_text')
+    else:
+        ops = [{'op': 'new_calc', 'c': 9, 'seg': True}] + mon.gh.config_ops(cfg, 9, seg=False) + [{'op': 'add_type', 'c': 9, 'name': 'ufam'}]
     for i, (w, (dg, rm, rd)) in enumerate(zip(words, combos)):
+        if via_json:
+            break
         op = {'op': 'add_type_item', 'c': 9, 'name': 'ufam', 'index': i + 1, 'format': '{value} %s' % w, 'parse': ['{NUMBER:value} {TEXT:type:%s}' % w],
               'up': '{value}', 'down': '{value}', 'names': [w]}
         if dg is not None:
